@@ -626,7 +626,7 @@ func farAnchors(quick bool) []int {
 	if quick {
 		return []int{1, 3, 128, 129}
 	}
-	return []int{1, 2, 3, 4, 127, 128, 129, 130, 256, 257, 384, 385}
+	return []int{1, 2, 3, 128, 129, 256, 257, 384, 385}
 }
 
 func (c *ctx) mitmCases_(quick bool) []kase {
